@@ -1315,6 +1315,41 @@ impl<'c, 'a> Exec<'c, 'a> {
                         return None;
                     }
                 }
+                // the folding and adapting consumers, breaking off in the middle and at the very start
+                for k in [len / 2, 0] {
+                    if let Some(got) = self.sut.as_ref().unwrap().iter_fold(k) {
+                        let m = &self.model;
+                        let want = adapters::fold_obs(|| m.iter().copied(), |x: Item| x, k);
+                        self.ctx.checked();
+                        self.ctx.probe("iterators-folded-reduced-partitioned");
+                        let same_items = |g: &Vec<Item>, w: &Vec<Item>| {
+                            g.len() == w.len()
+                                && g.iter().zip(w.iter()).all(|(g, w)| (d.eq_items)(*g, *w) && g[0].to_bits() == w[0].to_bits())
+                        };
+                        let names = [
+                            "reduce(|_, b| b)", "reduce(|a, _| a)", "rev().reduce(|_, b| b)", "try_fold breaking off, then the rest",
+                            "try_rfold breaking off, then the rest", "partition", "step_by", "skip", "rev().skip().step_by(2)",
+                            "zip with its reverse", "chain with itself", "take", "last / rev().last / count", "is_sorted_by",
+                        ];
+                        let bad = (0..got.len().max(want.len())).find(|&i| match (got.get(i), want.get(i)) {
+                            (Some(g), Some(w)) => !(same_items(&g.0, &w.0) && g.1 == w.1),
+                            _ => true,
+                        });
+                        if let Some(i) = bad {
+                            self.ctx.fail(
+                                "trace:iterator-fold",
+                                &format!("{}:fold", d.name),
+                                format!(
+                                    "{} with k = {k} over {len} colors = {:?}, a vector of the same colors gives {:?}",
+                                    names.get(i).copied().unwrap_or("?"),
+                                    got.get(i),
+                                    want.get(i)
+                                ),
+                            );
+                            return None;
+                        }
+                    }
+                }
                 Some("ok")
             }
             Op::Get { i, past } => {
